@@ -1,4 +1,5 @@
 """C03 - access control: nothing happens to an object without a policy grant."""
+import copy
 import hashlib
 import itertools
 
@@ -463,8 +464,15 @@ def gen_history(draw):
     for _ in range(n):
         who = draw(st.sampled_from(users))
         groups = draw(st.sampled_from([None, None, [], ["g1"], ["g2"], ["g1", "g2"], ["g3"]]))
-        kind = draw(st.sampled_from(["create", "create", "op", "op", "op", "locate", "locate", "batch"])) if nobj else "create"
-        if kind == "create":
+        kind = draw(st.sampled_from(["create", "create", "op", "op", "op", "locate", "locate", "batch",
+                                     "reconf"])) if nobj else "create"
+        if kind == "reconf":
+            # the operator replaces (or removes) a user policy while the server runs - the policy
+            # store is shared with the directory monitor and changes in place; decisions follow
+            # the policy that is there when the request arrives
+            steps.append({"kind": "reconf", "who": who, "groups": groups, "name": draw(st.sampled_from(sorted(pols))),
+                          "policy": draw(st.one_of(st.none(), gen_policy(), gen_policy()))})
+        elif kind == "create":
             t = draw(st.sampled_from(tpool))
             steps.append({"who": who, "groups": groups, "kind": "create", "otype": t,
                           "policy": draw(st.sampled_from(pnames))})
@@ -520,7 +528,7 @@ def _model_hist(pols, pname, otype, opname, user, groups, owner):
 
 
 def run_history(spec):
-    pols = spec["policies"]
+    pols = copy.deepcopy(spec["policies"])
     policies = H.builtin_policies()
     for k, v in pols.items():
         policies[k] = _real_generated_policy(v)
@@ -534,6 +542,15 @@ def run_history(spec):
         for step in spec["steps"]:
             who, groups = step["who"], step["groups"]
             cli = H.Client(srv, who, groups, (1, 2))
+            if step["kind"] == "reconf":
+                if step["policy"] is None:
+                    pols.pop(step["name"], None)
+                    srv.policies.pop(step["name"], None)
+                else:
+                    pols[step["name"]] = copy.deepcopy(step["policy"])
+                    srv.policies[step["name"]] = _real_generated_policy(step["policy"])
+                classes.append("h:policy-replaced" if step["policy"] else "h:policy-removed")
+                continue
             if step["kind"] in ("create", "batch"):
                 item = F.register_item(step["otype"], label="h%d" % len(objs),
                                        extra_attrs=[["Name", "nm"], ["Operation Policy Name", step["policy"]]])
